@@ -130,12 +130,12 @@ class CWorld(ObjWorld):
                     if dschema[t]["k"] in ("struct", "array", "uref"):
                         dk.update(cls._gen_kernels())
                         droots.append(cls)
-                old0 = type(self.cctx)._compile_kernels_info
-                type(self.cctx)._compile_kernels_info = False
+                old0 = xo.ContextCpu._compile_kernels_info
+                xo.ContextCpu._compile_kernels_info = False
                 try:
                     xo.ContextCpu().add_kernels(kernels=dk, extra_classes=droots, extra_compile_args=("-O0", "-Wno-unused-function"), extra_link_args=("-O0",))
                 finally:
-                    type(self.cctx)._compile_kernels_info = old0
+                    xo.ContextCpu._compile_kernels_info = old0
                 self.decoy_built = True
         probes = c.get("probes")
         sources = []
@@ -173,6 +173,9 @@ class CGenSource(GenSource):
         if op is None and not self.final_done:
             self.final_done = True
             return {"op": "c_read", "all": True}
+        if op is None and self.profile == "c_writers" and not getattr(self, "final_set_done", False):
+            self.final_set_done = True
+            return {"op": "c_set", "all": True, "seed": self.rng.getrandbits(30)}
         return op
 
     def _pick_c_target(self, w, want_leaf):
@@ -221,6 +224,14 @@ class CGenSource(GenSource):
 
 
 class CStep(Step):
+    def viol(self, prop, oracle, sig, detail=""):
+        # the C02 oracles only read (values vs model, addresses vs decoder): under another lens the
+        # model stays in step with the system, so the run goes on (same rule as Step.SOFT)
+        if prop == "C02" and self.lens != "C02" and oracle.startswith(("c_get", "c_len", "c_typeid", "c_member", "accessor_")):
+            self.res.foreign_seen.add("C02")
+            return
+        super().viol(prop, oracle, sig, detail)
+
     # -- helpers
     def _root(self, o, at, via):
         start = o.handle() if via == "handle" and o.hnd is not None else o.view()
@@ -360,8 +371,51 @@ class CStep(Step):
         return ncalls
 
     # -- c_set
+    def c_set_all(self):
+        """Every scalar leaf of every live object is written once through its setter."""
+        import random
+
+        w, op = self.w, self.op
+        schema = w.schema
+        r = random.Random(op["seed"])
+        n = 0
+        for o in [x for x in w.live_objs() if schema[x.t]["k"] in ("struct", "array")]:
+            try:
+                lay = self._layout(o)
+            except DecodeError:
+                continue
+            root = o.handle()
+            tname = schema[o.t]["name"]
+            done = set()
+            for path, t, node in c_paths(schema, o.t, o.node, maxn=400):
+                if schema[t]["k"] != "sc" or n >= 400:
+                    continue
+                ext = lay.get(lay_key(path))
+                if ext is None or ext[0] in done:
+                    continue  # (a leaf reachable twice through shared references is set once)
+                done.add(ext[0])
+                name, kw = acc_name(tname, "set", path, False)
+                ker = self._kernel(name)
+                if ker is None:
+                    self.viol("C07", "setter_missing", ["set", typegen.features(schema, o.t)], f"no generated function {name}")
+                    return
+                v = M.gen_scalar(r, schema[t]["t"])
+                self.allowed.append((o.buf, ext[0], ext[1]))
+                try:
+                    ker(obj=root, value=M.scalar_py(schema[t]["t"], v), **kw)
+                except Exception as e:
+                    self.viol("C07", "setter_call_raised", ["set", exc_sig(e), typegen.features(schema, o.t)], f"{name}({kw}): {type(e).__name__}: {e}")
+                    return
+                _, _, parent, key = M.node_at(schema, o.t, o.node, path)
+                M.store_at(parent, key, bytes.fromhex(v["x"]))
+                n += 1
+        self.res.probe("c_set_calls", n)
+        self.res.probe("c_set_all_sweeps")
+
     def op_c_set(self):
         w, op = self.w, self.op
+        if op.get("all"):
+            return self.c_set_all()
         schema = w.schema
         o = self.get_obj(op["obj"])
         at, path = op.get("at", []), op["path"]
